@@ -81,6 +81,7 @@ type Entry struct {
 	BaseOff   int64
 	ProdErr   string
 	AuthDone  bool // request arrived after the connection was authenticated (or no SASL)
+	AfterCut  bool // request arrived after the broker had cut the connection short (see HalfCloseOnCut)
 	memberID  string
 	scripted  string
 	longPoll  bool
@@ -98,6 +99,7 @@ type srvConn struct {
 	sasl           *saslSession
 	rawAuth        bool // handshake v0: next bytes are raw auth tokens
 	closedByBroker bool
+	cut            bool // an answer was cut short on this connection ("cut:<k>" / RawAuthCut)
 }
 
 type Cluster struct {
@@ -151,6 +153,14 @@ type Cluster struct {
 	shape        FetchShape
 	Auths        []AuthRec
 	RawAuthFault string
+	// RawAuthCut, when set, is asked before every raw (handshake v0) SASL answer (round counts the client's tokens
+	// from 1, frame is the 4-byte length and the token): a result k >= 0 delivers only the first k bytes of the
+	// answer and then ends the stream like "cut:<k>" does for framed answers; k < 0 leaves the answer alone.
+	RawAuthCut func(conn, round int, frame []byte) int
+	// HalfCloseOnCut makes a cut ("cut:<k>", RawAuthCut) shut down only the broker's sending side: the client sees
+	// the end of the stream after k bytes, while the broker keeps reading, so that whatever the client still writes
+	// on that connection is journaled (Entry.AfterCut). Default: the broker closes the connection.
+	HalfCloseOnCut bool
 }
 
 type DialRec struct {
@@ -326,6 +336,7 @@ func (c *Cluster) serve(sc *srvConn) {
 			c.Storm = true
 		}
 		e.AuthDone = sc.authed
+		e.AfterCut = sc.cut
 		c.Journal = append(c.Journal, e)
 		sc.pending = append(sc.pending, e)
 		if e.Key == protocol.Produce && e.DecodeErr == "" {
@@ -499,7 +510,16 @@ func (c *Cluster) Answer(e *Entry, alt string) {
 	} else if cut >= 0 {
 		sc.srv.LimitPeerReadsAfter(cut) // set before writing: the client may be reading concurrently
 	}
+	if cut >= 0 {
+		sc.cut = true
+	}
 	c.respond(e, mode)
+	if cut >= 0 && c.HalfCloseOnCut {
+		c.finish(e, alt)
+		c.mu.Unlock()
+		c.event()
+		return
+	}
 	if alt == "apply-drop" || cut >= 0 {
 		c.finish(e, alt)
 		c.dropConn(sc)
@@ -635,6 +655,12 @@ func (c *Cluster) Unconsumed(id int) int {
 func (c *Cluster) ConnClosedLocked(id int) bool {
 	return c.Conns[id].cli.Closed() || c.Conns[id].closedByBroker
 }
+
+// ClientClosedLocked: the client closed its end of connection id (lock held by caller).
+func (c *Cluster) ClientClosedLocked(id int) bool { return c.Conns[id].cli.Closed() }
+
+// ConnCutLocked: an answer was cut short on this connection (lock held by caller).
+func (c *Cluster) ConnCutLocked(id int) bool { return c.Conns[id].cut }
 
 // ClientBytes returns everything the client wrote on connection id (lock held by caller).
 func (c *Cluster) ClientBytes(id int) []byte { return c.Conns[id].cli.Journal() }
